@@ -160,7 +160,13 @@ func init() {
 							}
 						}
 					}
-					for _, unknown := range []string{"nosuch", "a" + ext, "sub", "", "../t/a", "a.bak"} {
+					unknowns := []string{"nosuch", "a" + ext, "sub", "", "../t/a", "a.bak"}
+					for k, n := range wantNames {
+						if k < 3 || k == len(wantNames)-1 {
+							unknowns = append(unknowns, "/"+n, "//"+n, "./"+n, n+"/", n+ext, " "+n, n+" ", strings.ToUpper(n), filepath.Base(n)+"/../"+n, "\\"+n)
+						}
+					}
+					for _, unknown := range unknowns {
 						if _, ok := expect[unknown]; ok {
 							continue
 						}
@@ -309,7 +315,7 @@ type faultTree struct {
 // faultTrees builds valid trees: page + layout + component + nested page
 func faultTrees() []faultTree {
 	var out []faultTree
-	mk := func(layoutBody, compBody []model.Stmt, pageExtra []model.Stmt) faultTree {
+	mk := func(layoutBody, compBody []model.Stmt, pageExtra []model.Stmt, layoutUsesComponent bool) faultTree {
 		ft := faultTree{files: map[string]string{}, spans: map[string][]model.Span{}, role: map[string]string{}, usedBy: map[string]string{}}
 		put := func(name, role string, stmts []model.Stmt) {
 			marked := model.PrintStmts(stmts, model.Style{Layout: model.SpaceLayout, Marks: true})
@@ -331,6 +337,10 @@ func faultTrees() []faultTree {
 		put("plain.tw", "page", []model.Stmt{model.Text{S: "just text {{ 1 }} here"}})
 		ft.files["plain.tw"] = "just text {{ 1 + 2 }} here\n"
 		ft.spans["plain.tw"] = nil
+		if layoutUsesComponent {
+			put("components/hdr.tw", "component", []model.Stmt{model.Text{S: "<hdr>"}, model.If{Conds: []model.Expr{model.Lit{V: model.Bool(true)}}, Bodies: [][]model.Stmt{{model.Text{S: "h"}}}}, model.Text{S: "</hdr>"}})
+			ft.usedBy["components/hdr.tw"] = "layouts/main.tw"
+		}
 		ft.usedBy["layouts/main.tw"] = "home.tw"
 		ft.usedBy["components/card.tw"] = "home.tw"
 		return ft
@@ -338,11 +348,14 @@ func faultTrees() []faultTree {
 	lay1 := []model.Stmt{model.Text{S: "<html><title>"}, model.Reserve{Name: "title"}, model.Text{S: "</title>"},
 		model.If{Conds: []model.Expr{model.Lit{V: model.Bool(true)}}, Bodies: [][]model.Stmt{{model.Text{S: "<body>"}, model.Reserve{Name: "body"}, model.Text{S: "</body>"}}}}, model.Text{S: "</html>"}}
 	comp1 := []model.Stmt{model.Text{S: "<card>"}, model.Print{E: model.Var{Name: "t"}}, model.Text{S: ":"}, model.SlotRef{Name: ""}, model.Text{S: "</card>"}}
-	out = append(out, mk(lay1, comp1, nil))
+	out = append(out, mk(lay1, comp1, nil, false))
 	lay2 := []model.Stmt{model.Comment{Body: " layout "}, model.Each{Var: "k", Arr: intArr(1, 2), Body: []model.Stmt{model.Text{S: "["}, model.Reserve{Name: "title"}, model.Text{S: "]"}}},
 		model.Reserve{Name: "body"}, model.Print{E: model.Dot{X: model.ObjLit{Keys: []string{"a"}, Vals: []model.Expr{model.Lit{V: model.Int(1)}}}, Name: "a"}}}
 	comp2 := []model.Stmt{model.If{Conds: []model.Expr{model.Var{Name: "t"}}, Bodies: [][]model.Stmt{{model.Text{S: "T="}, model.Print{E: model.Var{Name: "t"}}}}, Else: []model.Stmt{model.Text{S: " none"}}}, model.SlotRef{Name: ""}}
-	out = append(out, mk(lay2, comp2, []model.Stmt{model.Each{Var: "q", Arr: intArr(1), Body: []model.Stmt{model.Text{S: "q"}}}}))
+	out = append(out, mk(lay2, comp2, []model.Stmt{model.Each{Var: "q", Arr: intArr(1), Body: []model.Stmt{model.Text{S: "q"}}}}, false))
+	// a component that only the layout refers to (on a path that is not taken)
+	lay3 := append(append([]model.Stmt{}, lay1...), model.If{Conds: []model.Expr{model.Lit{V: model.Bool(false)}}, Bodies: [][]model.Stmt{{model.Component{Name: "~hdr"}}}})
+	out = append(out, mk(lay3, comp1, nil, true))
 	return out
 }
 
